@@ -9,8 +9,8 @@ BASE = json.load(open("/root/.vp/BASELINE.json"))
 CHECKS = {
     "C01": ("history + executable model (3-state DFA, expected callback trace) over enumerated and sampled "
             "words; invariant at the hook (state/leftover transitions) after every check and run",
-            "bounded-exhaustive acceptance (all words <= 5/6 steps) + traced execution of accepted words + "
-            "check/run histories; beyond the bound: sampled", "3 C01"),
+            "bounded-exhaustive acceptance (all words <= 5 steps quick / 7 thorough, bare and with free-form suffixes) + traced execution "
+            "of accepted words + check/run histories of one and of two pipelines on one machine; beyond the bound: sampled", "3 C01"),
 }
 CHECKS.update({
     "C05": ("executable model (declarative parameter-domain table) evaluated on every check_conf call of the "
@@ -19,20 +19,20 @@ CHECKS.update({
             "two entry points; don't-care cells never judged", "3 C05"),
     "C20": ("executable model (margin table) + icontract class invariant on GlobalMargins evaluated on every "
             "mutation during the workload; monotonicity relation over one-step extensions",
-            "all accepted words <= 4/5 steps x parameter draws, with and without validation, step 1-3, CLI runs", "3 C20"),
+            "all accepted words <= 4/5 steps x parameter draws (incl. omitted parameters judged against the documented defaults), with and without validation, step 1-3 with suffixed names, CLI runs", "3 C20"),
 })
 CHECKS.update({
     "C02": ("reference-model monitor: left/right cost volumes captured at the matching_cost step hook and compared "
             "element-wise with a brute-force per-pixel reference; NUMBA_BOUNDSCHECK + as_strided bounds monitor on a share of the shards",
-            "generated pairs over measures x windows x subpix x interval kinds x masks x bands; exact for SAD/census", "3 C02"),
+            "generated pairs over measures x windows x subpix x interval kinds (scalar, grids incl. non-integer bounds) x masks x bands (incl. permuted right bands, NaN no-data samples for zncc); exact for SAD/census", "3 C02"),
 })
 CHECKS.update({
     "C03": ("reference-model monitor (first arg-optimum over the whole array, no blocks) on synthetic volumes and at the "
             "disparity step hook of traced pipelines; before/after comparison of the cost volume, flags and bands",
-            "shapes straddling the 100-pixel blocks, all 27 {NaN,0,1}^3 patterns, min/max, NaN/odd invalid_disparity", "3 C03"),
+            "shapes straddling the 100-pixel blocks, all 27 {NaN,0,1}^3 patterns, min/max, NaN/odd invalid_disparity, 257-321 samples, four memory layouts, infinite costs, windows 1/3/5", "3 C03"),
     "C04": ("invariants at the step hooks of traced runs: cause oracle for bits 0/1/2/6/7, three-way equivalence before "
             "validation, bit-ownership monitor (before ^ after within the step's owned bits) after every later step",
-            "masked pairs x windows x intervals/grids; random legal pipelines with repeated refinement/filter/validation", "3 C04"),
+            "masked pairs x windows x intervals/grids (incl. float grids at subpix 2/4); random legal pipelines with repeated refinement/filter/validation; cost-volume flags watched during later steps", "3 C04"),
 })
 CHECKS.update({
     "C06": ("reference-model monitor (closed forms of refinement.rst, float64) on the datasets captured around every "
@@ -48,15 +48,15 @@ CHECKS.update({
 CHECKS.update({
     "C10": ("reference-model monitor (per-pixel nan-median / Gaussian-weighted mean over the valid window) on the datasets "
             "captured around every filter execution; untouched-set and mask invariants",
-            "map sizes around the 50/100-pixel block boundaries, odd/even bilateral widths, invalid pixels anywhere", "3 C10"),
+            "map sizes around the 50/100-pixel block boundaries, odd/even bilateral widths, invalid pixels anywhere incl. areas larger than a block", "3 C10"),
     "C11": ("reference-model monitor (brute-force combined cross-support region walk) on the cost volumes captured around "
             "the aggregation step; metamorphic plane-independence relation",
-            "SAD/census exact, ZNCC 1e-4; masks, subpix, distances 1-8, intensities 1-200", "3 C11"),
+            "SAD/census exact, ZNCC 1e-4; masks, subpix, distances 1-8 (9-17 on smooth scenes), intensities 1-200, intervals wider than the image, one aggregation object reused over several calls", "3 C11"),
 })
 CHECKS.update({
     "C12": ("reference-model monitor (formulas of cost_volume_confidence.rst with an epsilon bracket on every threshold) on "
             "the datasets captured around every confidence step; metamorphic comparison with the pipeline without the steps",
-            "four confidence classes on synthetic volumes (min/max, NaN, ties), pipelines with 0-4 steps and suffixes", "3 C12"),
+            "four confidence classes on synthetic volumes (min/max, NaN, ties, nearly constant, > 100 rows/columns), pipelines with 0-4 steps and free-form suffixes, the same configuration run twice", "3 C12"),
 })
 CHECKS.update({
     "C16": ("reference-model monitor: independent full read of the same files (rasterio + numpy) compared with the dataset "
@@ -70,7 +70,7 @@ CHECKS.update({
     "C19": ("observation at the save_results boundary (wrapper captures the datasets that are saved) compared with an "
             "independent read of the output tree; replay relation: cfg/config.json fed back must reproduce the rasters; "
             "console entry point run as a subprocess",
-            "generated configurations (bands, validation/filling, NaN invalid_disparity, grids, georeferencing, masks)", "3 C19"),
+            "generated configurations (bands, validation/filling, NaN / infinite invalid_disparity, grids, five reference-system flavours, masks, suffixed steps) + save_results on synthetic products of 19 sizes", "3 C19"),
 })
 CHECKS.update({
     "C08": ("metamorphic monitor over pairs of recorded executions: run(A,B,[a,b]) vs run(B,A,[-b,-a]) compared bit for bit "
@@ -94,7 +94,7 @@ CHECKS.update({
             "processes started with NUMBA_NUM_THREADS 1/2/3/4/8/16, PANDORA_NUMBA_PARALLEL=False and without the harness's cache "
             "patch, across repetitions and fresh/reused machines, and across histories interleaving other pipelines on other "
             "machines; input datasets digested before/after every run",
-            "schedules sampled (thread counts, load, repetitions), not enumerated", "3 C18"),
+            "schedules sampled (thread counts, threading layer, case order, load, repetitions incl. the same configuration object), not enumerated", "3 C18"),
 })
 NOTES = {}
 
